@@ -107,6 +107,7 @@ func (w *worker) startServers() error {
 	ok, _, st, rec, _ := w.dial(w.srv["legacy"], own)
 	if ok && rec != nil && rec.err == nil && st.Version <= tls.VersionTLS11 {
 		w.m.Note("legacy_listener_selfcheck_ok", 1)
+		w.legacyOK = true
 	} else {
 		w.m.Note("legacy_listener_selfcheck_failed", 1)
 	}
@@ -212,7 +213,7 @@ func (w *worker) handshake(p Point, sk string, reject bool, via string) {
 			}
 			return false
 		})
-		m.Violate(sig, detail, &Case{Point: &mp, Server: sk, Reject: reject, Via: via, NameVariant: nameClass(mp.ServerName) != ""})
+		m.Violate(sig, detail, &Case{Point: &mp, Server: sk, Reject: reject, Via: via, NameVariant: nameClass(mp.ServerName) != "", Encoding: isEncodingFile(mp.CertFile) || isEncodingFile(mp.KeyFile)})
 	}
 }
 
@@ -363,13 +364,7 @@ func (w *worker) handshakeAttempt(p Point, sk string, reject bool, via string, a
 			class("hs:server-side-error-after-client-ok")
 			break
 		}
-		var want *x509.Certificate
-		switch e.idWant {
-		case "rsa":
-			want = w.mat.rsaCert
-		case "ec":
-			want = w.mat.ecCert
-		}
+		want, wantChain := wantIdentity(e.idWant, w.mat)
 		switch {
 		case want == nil && len(rec.peer) > 0:
 			violate("hs-client-cert-fabricated/"+e.idKind, "the client presented a certificate although none was supplied")
@@ -377,6 +372,8 @@ func (w *worker) handshakeAttempt(p Point, sk string, reject bool, via string, a
 			violate("hs-client-cert-not-presented/"+e.idKind, "the client presented no certificate although a usable pair was supplied and the server requested one")
 		case want != nil && !bytes.Equal(rec.peer[0], want.Raw):
 			violate("hs-client-cert-different/"+e.idKind, "the client presented a certificate that is not the supplied one")
+		case want != nil && !sameChain(rec.peer, wantChain):
+			violate("hs-client-cert-chain-differs/"+e.idKind, "the client presented %d certificate(s) after the right leaf, the supplied material holds %d", len(rec.peer)-1, len(wantChain)-1)
 		case want != nil:
 			class("hs:client-cert-presented:" + e.idWant)
 		default:
